@@ -120,8 +120,8 @@ def summarise(paths, canon, what, raises=True, track=()):
     whole function)"""
     out = set()
     for p in paths:
-        conds = frozenset(cond_term(canon, t, pol) for t, pol in p.conds_open())
-        effects = tuple(effect_term(canon, e) for e in p.effects if not _diagnostic(e))
+        conds = frozenset(cond_term(canon, t, pol) for t, pol in p.conds_open(frozen=True))
+        effects = tuple(effect_term(canon, e) for e in p.effects_frozen if not _diagnostic(e))
         for name in track:
             if name in p.env:
                 effects = effects + (("store", (("name", name),), canon(p.env[name])),)
@@ -134,7 +134,7 @@ def summarise(paths, canon, what, raises=True, track=()):
             name = dotted(exc.func) if isinstance(exc, ast.Call) else (dotted(exc) if exc is not None else None)
             res = ("raise", name or "?")
         elif p.how == "return":
-            res = ("return", canon(p.ret) if p.ret is not None else ("const", "None"))
+            res = ("return", canon(p.ret_frozen) if p.ret_frozen is not None else ("const", "None"))
         elif p.how == "fall":
             res = ("return", ("const", "None"))
         else:
